@@ -508,3 +508,55 @@ func c18AgentBinaryRound(u *vh.U, bin, dir, keyfile string, self *vh.Ident, r c1
 	u.Observe(fmt.Sprintf("binary strict=%v target=%d invalid=%d ok=%v", r.strict, r.target, len(r.invalid), ok))
 	return ""
 }
+
+// "a failed keep-alive call changes nothing on the node" - also when the failing keep-alive is one
+// of the agent's own periodic ones (the loop ends with that error): the running agent under the
+// controlled scheduler, the pool failing the n-th periodic keep-alive
+func c18FailedPeriodicKeepAlive() vh.Unit {
+	return vh.Unit{Name: "failed-periodic-keep-alive", Run: func(u *vh.U) {
+		for _, strict := range []bool{false, true} {
+			for failAt := 1; failAt <= 3; failAt++ {
+				var calls []string
+				var peersLeft int
+				var waitErr error
+				s := vsched.Run(vsched.Options{Drain: false, MaxTime: 24 * time.Hour}, func() {
+					w := c20New()
+					w.a.StrictPeers = strict
+					for i := 0; i < 3; i++ {
+						p := ethnode.PeerInfo{ID: c18Ids[i]}
+						p.Network.RemoteAddress = c18Addrs[0]
+						w.node.peers = append(w.node.peers, p)
+						w.sp.update.ActivePeers = append(w.sp.update.ActivePeers, "enode://"+c18Ids[i]+"@"+c18Addrs[0])
+					}
+					if cls, detail := w.apply("start"); cls != "" {
+						panic(cls + ": " + detail)
+					}
+					for i := 1; i < failAt; i++ {
+						w.apply("tick")
+					}
+					w.node.calls = nil
+					w.apply("failkeepalive")
+					w.apply("tick")
+					waitErr = w.a.Wait()
+					calls = append([]string{}, w.node.calls...)
+					peersLeft = len(w.node.peers)
+				})
+				u.R.Evaluations++
+				u.R.States++
+				u.R.Transitions += int64(len(s.Trace))
+				u.R.Traces++
+				u.Observe(fmt.Sprintf("failed periodic strict=%v at=%d calls=%d", strict, failAt, len(calls)))
+				desc := fmt.Sprintf("running agent (strict=%v) with 3 peers the pool lists as active; the pool fails periodic keep-alive %d", strict, failAt)
+				switch {
+				case s.Panic != nil:
+					u.Violate("agent/panic", fmt.Sprintf("%s: %v", desc, s.Panic), nil)
+				case len(calls) != 0 || peersLeft != 3:
+					u.Violate("agent/failed-keepalive-touched-node", fmt.Sprintf("%s: node calls %v, peers left %d (loop result: %v)", desc, abbrevCalls(calls), peersLeft, waitErr), nil)
+				case waitErr == nil:
+					u.Violate("agent/failed-keepalive-not-reported", desc+": Wait returned nil", nil)
+				}
+			}
+		}
+		u.Sample("the agent's loop under the controlled scheduler, the pool failing periodic keep-alive 1 / 2 / 3")
+	}}
+}
